@@ -302,6 +302,22 @@ pub fn fin_emitted(scn: &Scenario, l: &RunLog) -> Vec<Finding> {
                 }
             }
         }
+        // an own-initiative FIN comes after every byte write had accepted by then has been transmitted
+        // (unless the peer's FIN / RESET arrived first: uTP then cuts the local writer short by design)
+        if let Some(fw) = l.wire.iter().find(|w| w.from_a == from_a && w.ptype == 1 && !w.injected && !w.rejected) {
+            let transmitted: u64 = l.wire.iter().filter(|w| w.from_a == from_a && w.ptype == 0 && !w.injected && !w.rejected && w.k < fw.k).map(|w| w.seq).collect::<std::collections::BTreeSet<u16>>().iter().filter_map(|s| seq_end_map(l, from_a).get(s).copied()).max().unwrap_or(0);
+            let accepted: u64 = l.app.iter().filter(|e| e.side == side && e.t_us <= fw.t_us).map(|e| if let AppEv::WriteAccepted { n, .. } = e.ev { n as u64 } else { 0 }).sum();
+            let peer_closed_first = l.wire.iter().any(|w| w.from_a != from_a && (w.ptype == 1 || w.ptype == 3) && delivery_time(l, w.k).map(|d| d <= fw.t_us).unwrap_or(false)) || l.wire.iter().any(|w| w.injected && w.ptype == 3);
+            let errored = l.app.iter().any(|e| e.side == side && e.t_us <= fw.t_us && matches!(e.ev, AppEv::WriteErr(_) | AppEv::ReadErr(_) | AppEv::FlushErr(_) | AppEv::ShutdownErr(_)));
+            if transmitted < accepted && !peer_closed_first && !errored {
+                v.push(f(
+                    "C17",
+                    "fin-order",
+                    "fin/sent-before-all-accepted-data",
+                    format!("{} put its ST_FIN (seq {}) on the wire at {} us after transmitting {} of the {} bytes write had accepted by then", side_name(side), fw.seq, fw.t_us, transmitted, accepted),
+                ));
+            }
+        }
         // close request time
         let mut acc = 0u64;
         let mut reader_dropped = false;
